@@ -117,11 +117,7 @@ func runHistory(r *core.Run, cid string, L int) {
 		case x < 97:
 			// governance replaces or upgrades the client of one path: commitments and counters are not its business
 			a, b := s.RandNodePair()
-			gov := s.ToggleRoundTrip
-			if rng.Intn(2) == 0 {
-				gov = s.UpgradeClient
-			}
-			if err := gov(a, b); err != nil {
+			if err := s.GovClientOp(a, b); err != nil {
 				r.Inconclusive("%s: client toggle / upgrade failed: %v", cid, err)
 				return
 			}
